@@ -70,13 +70,13 @@ Fixpoint skip_seps (fuel : nat) (s : list Z) (i : Z) : option Z :=
   end.
 
 (* ---- first pass: copy, removing dot entries and collapsing separators.
-        NOTE the comparison of the output index r with the INPUT index root_end. *)
-Definition dot_entry_before (buf : list Z) (i r root_end : Z) : bool :=
+        The output index r is compared with the copied root length root_len. *)
+Definition dot_entry_before (buf : list Z) (i r root_end root_len : Z) : bool :=
   (i >=? root_end) &&
-  (((r =? root_end + 1) && (get buf (r - 1) =? DOT)) ||
-   ((r >=? root_end + 2) && (get buf (r - 2) =? SEP) && (get buf (r - 1) =? DOT))).
+  (((r =? root_len + 1) && (get buf (r - 1) =? DOT)) ||
+   ((r >=? root_len + 2) && (get buf (r - 2) =? SEP) && (get buf (r - 1) =? DOT))).
 
-Fixpoint copy_loop (fuel : nat) (s : list Z) (len root_end i r : Z) (buf : list Z)
+Fixpoint copy_loop (fuel : nat) (s : list Z) (len root_end root_len i r : Z) (buf : list Z)
   : option (Z * list Z) :=
   match fuel with
   | O => None
@@ -84,14 +84,14 @@ Fixpoint copy_loop (fuel : nat) (s : list Z) (len root_end i r : Z) (buf : list 
       if i <? len then
         if is_sep (rd s i) then
           let '(r1, buf1) :=
-            if dot_entry_before buf i r root_end
+            if dot_entry_before buf i r root_end root_len
             then (r - 1, set buf (r - 1) 0)
             else (r + 1, set buf r SEP) in
           match skip_seps (S (length s)) s i with
           | None => None
-          | Some i1 => copy_loop f s len root_end (i1 + 1) r1 buf1
+          | Some i1 => copy_loop f s len root_end root_len (i1 + 1) r1 buf1
           end
-        else copy_loop f s len root_end (i + 1) (r + 1) (set buf r (rd s i))
+        else copy_loop f s len root_end root_len (i + 1) (r + 1) (set buf r (rd s i))
       else Some (r, buf)
   end.
 
@@ -114,7 +114,10 @@ Fixpoint dotdot_loop (fuel : nat) (i r last next : Z) (buf : list Z) : option (Z
           dotdot_loop f 0 r1 r1 0 buf2
         else
           let next1 := if (i >=? 1) && (get buf (i - 1) =? SEP) then i else next in
-          let last1 := if negb (get buf i =? SEP) && negb (get buf i =? DOT) then next1 else last in
+          (* not "." or "..": a non-dot byte, or a third byte of the entry (next + 2U <= i) *)
+          let last1 := if negb (get buf i =? SEP) &&
+                          (negb (get buf i =? DOT) || (i >=? sz (next1 + 2)))
+                       then next1 else last in
           dotdot_loop f (i + 1) r last1 next1 buf
       else Some (r, buf)
   end.
@@ -132,13 +135,14 @@ Fixpoint root_dotdot_scan (fuel : nat) (buf : list Z) (r start : Z) : option Z :
   end.
 
 (* ---- the tail rules, on the buffer *)
-Definition tail_rules (r : Z) (buf : list Z) : list Z :=
-  (* remove trailing dot entry *)
-  let buf1 := if (r >=? 2) && is_sep (get buf (r - 2)) && (get buf (r - 1) =? DOT)
-              then set buf (r - 1) 0 else buf in
-  (* remove trailing dot-dot entry['s separator] *)
+Definition tail_rules (r0 : Z) (buf : list Z) : list Z :=
+  (* remove trailing dot entry: result[--r] = 0 *)
+  let '(r, buf1) := if (r0 >=? 2) && is_sep (get buf (r0 - 2)) && (get buf (r0 - 1) =? DOT)
+                    then (r0 - 1, set buf (r0 - 1) 0) else (r0, buf) in
+  (* remove the separator after a trailing dot-dot entry (a whole entry: at the start or
+     preceded by a separator) *)
   let buf2 := if (r >=? 3) && (get buf1 (r - 3) =? DOT) && (get buf1 (r - 2) =? DOT) &&
-                 is_sep (get buf1 (r - 1))
+                 is_sep (get buf1 (r - 1)) && ((r =? 3) || is_sep (get buf1 (r - 4)))
               then set buf1 (r - 1) 0 else buf1 in
   (* if the path is empty, add a dot *)
   if get buf2 0 =? 0 then set (set buf2 0 DOT) 1 0 else buf2.
@@ -154,7 +158,7 @@ Definition pass1 (s : list Z) : option (Z * Z * list Z) :=
       match copy_root (S (length s)) s root_len 0 0 buf0 with
       | None => None
       | Some (r0, buf1) =>
-          match copy_loop (S (length s)) s len re re r0 buf1 with
+          match copy_loop (S (length s)) s len re root_len re r0 buf1 with
           | None => None
           | Some (r1, buf2) => Some (root_len, r1, buf2)
           end
@@ -166,7 +170,6 @@ Definition pass2 (root_len r : Z) (buf : list Z) (fuel : nat) : option (Z * list
 
 (* third pass + tail: the final buffer *)
 Definition pass34 (root_len r : Z) (buf : list Z) : option (list Z) :=
-  let tail := Some (tail_rules r buf) in
   if negb (root_len =? 0) && is_sep (get buf (root_len - 1)) then
     match root_dotdot_scan (S (length buf)) buf r root_len with
     | None => None
@@ -176,10 +179,10 @@ Definition pass34 (root_len r : Z) (buf : list Z) : option (list Z) :=
             if start <? r
             then (sz (sz (root_len + r) - start), memmove buf root_len start (sz (r - start)))
             else (root_len, buf) in
-          Some (set buf1 r1 0)                       (* early return *)
-        else tail
+          Some (tail_rules r1 (set buf1 r1 0))       (* falls through to the tail rules *)
+        else Some (tail_rules r buf)
     end
-  else tail.
+  else Some (tail_rules r buf).
 
 (* Some (allocation request in bytes, returned C string); None = out of fuel *)
 Definition zix_normal_full (s : list Z) : option (Z * list Z) :=
